@@ -13,7 +13,7 @@ LEVEL_TEXT = (
     " current scoped version and every child is visited; the `name.N` writer and its reader agree on a separator outside the"
     " identifier alphabet; the SSA version key is injective; a declaration is looked up before it is recorded and the shadowing"
     " report is pushed exactly on a hit; parameters are recorded as declarations and collisions are errors; the `for` body keeps"
-    " its own scope.; the declaration environment (versions none, 0, 1, 2; parameters declared at the parameter list; a repeated parameter is the collision error) and Parameters::new (one entry per declared parameter) are evaluated."
+    " its own scope.; the declaration environment (versions none, 0, 1, 2; parameters declared at the parameter list; a repeated parameter is the collision error) and Parameters::new (one entry per declared parameter) are evaluated. Parameters::contains is evaluated (a shadowing local of a parameter's base name is not the parameter); no return leaves a renaming arm before every child was visited."
 )
 NOT_DECIDED = "that every use resolves to the innermost preceding declaration for every program (follows from the discipline checked here, not decided separately)."
 ENGINE = "mirfacts+astq"
